@@ -1247,7 +1247,7 @@ func init() {
 	// afterwards the record is removed or left to expire, the application validates its token,
 	// and the instance may be started again with a new context.
 	families["ctxcancel"] = func(r *Rng) *Plan {
-		p := &Plan{Judge: []string{"C02", "C03", "C04", "C08", "C05"}}
+		p := &Plan{Judge: []string{"C02", "C03", "C04", "C08", "C05", "C19"}}
 		baseTiming(r, p, hLattice[:5])
 		n := 1 + r.Intn(3)
 		p.Insts = mkInsts(r, n, 1)
@@ -1263,6 +1263,9 @@ func init() {
 			who = r.Intn(n)
 		}
 		p.Actions = append(p.Actions, Action{At: t, Kind: ACancelStart, Inst: who})
+		if r.Bool(0.3) { // a redundant Start on the running election beforehand (refused)
+			p.Actions = append(p.Actions, Action{At: r.Dur(p.H, t), Kind: AStart, Inst: who})
+		}
 		if r.Bool(0.5) {
 			// (C02 speaks of records that only the elections touch)
 			p.Judge = []string{"C03", "C04", "C08", "C05"}
@@ -1274,6 +1277,14 @@ func init() {
 		}
 		if r.Bool(0.4) {
 			p.Actions = append(p.Actions, Action{At: t + r.Dur(p.H, 2*p.TTL), Kind: AStart, Inst: who})
+		} else if r.Bool(0.4) {
+			// started again at once, while a slow OnDemote of the cancelled run is still running;
+			// the old record is removed so that the new run can lead before that callback returns
+			p.Insts[who].DemoteDur = Pick(r, []time.Duration{2 * sec, 4 * sec})
+			p.Insts[who].PromoteMode = "block"
+			p.NoJudge = []string{"C02"}
+			p.Actions = append(p.Actions, Action{At: t + r.Dur(ms, 100*ms), Kind: AStart, Inst: who})
+			p.Actions = append(p.Actions, Action{At: t + r.Dur(ms, 200*ms), Kind: AOutDelete, Key: "g1"})
 		}
 		statusCalls(r, p)
 		p.Until = t + 3*p.TTL + 3*sec
